@@ -36,6 +36,7 @@ package ipfamily
 
 // ForService: the family of the Service's cluster IPs (spec.clusterIPs, else spec.clusterIP): a read-only function
 //@ func ForService
-//@   trusted
 //@   requires svc != nil
+//@   ensures [clusterIPs] len(svc.Spec.ClusterIPs) > 0 ==> FamOf(svc.Spec.ClusterIPs, result0, result1 == nil)
+//@   ensures [clusterIP] len(svc.Spec.ClusterIPs) == 0 ==> ite(parseIP(svc.Spec.ClusterIP) == nil, result1 != nil && result0 == Unknown, result1 == nil && result0 == ite(net.is4(parseIP(svc.Spec.ClusterIP)), IPv4, IPv6))
 //@   modifies fresh []string, fresh []interface{}
